@@ -115,8 +115,39 @@ theorem expCells_lvl_le (cfg : Cfg) (set : Settings) (tid : TextId) (eb : Nat) (
 theorem cells_all_range (n : Nat) (p : Nat → Bool) : (List.range n).all p = true ↔ ∀ i, i < n → p i = true := by
   simp [List.all_eq_true, List.mem_range]
 
-/-- C07 for one call: with progressive correction on, no cell's level increases (except when
-that buffer is reset) -/
+/-- C07, character clause, one addressed cell: with progressive correction, if `cellSpec` changes the character then
+the reception's weighted level is not worse than the cell's level -/
+theorem cellSpec_ch_or (cfg : Cfg) (info data : Nat) (old : Cell) (b eb ed : Nat) :
+    (cellSpec cfg info data true old b eb ed).ch = old.ch ∨ recvLevel eb ed ≤ old.lvl := by
+  unfold cellSpec recvLevel
+  simp only []
+  generalize (if (decide (eb = 0) && decide (ed = 0)) = true then 0 else 2 * eb + 3 * ed - 1) = lvl
+  split
+  · rename_i h
+    simp only [Bool.and_eq_true, Bool.not_true, Bool.false_or, decide_eq_true_eq] at h
+    exact Or.inr h.1.1.1.1.2
+  · exact Or.inl rfl
+
+/-- C07, character clause on a whole text: a changed character comes from an addressed reception that is not worse -/
+theorem expCells_ch_or (cfg : Cfg) (set : Settings) (tid : TextId) (eb : Nat) (old : Text)
+    (addr : List (Nat × Nat × Nat × Nat)) (hprog : set.prog tid = true) (i : Nat) (hi : i < old.length) :
+    ((expCells cfg set tid eb old addr).getD i blank).ch = (old.getD i blank).ch ∨
+      ∃ a, a ∈ addr ∧ a.2.1 = i ∧ recvLevel eb a.2.2.2 ≤ (old.getD i blank).lvl := by
+  rw [expCells_getD _ _ _ _ _ _ _ hi]
+  cases hf : addr.find? (fun a => a.2.1 = i) with
+  | none => exact Or.inl rfl
+  | some a =>
+    obtain ⟨t', i', b, ex⟩ := a
+    simp only []
+    rw [hprog]
+    rcases cellSpec_ch_or cfg (set.corr tid .info) (set.corr tid .data) (old.getD i blank) b eb ex with h | h
+    · exact Or.inl h
+    · have h1 := List.find?_some hf
+      simp only [decide_eq_true_eq] at h1
+      exact Or.inr ⟨_, List.mem_of_find?_eq_some hf, h1, h⟩
+
+/-- C07 for one call: with progressive correction on, no cell's level increases and a character is replaced only
+by an addressed reception whose level is not worse (except when that buffer is reset) -/
 theorem chkC07_ok (tb : Tabs) (m : Mon) (s : State) (op : Op) (hl : Link m s) (hw : WF tb s) :
     chkC07 m (recOf tb.cfg s op) = true := by
   by_cases hi : op = .init
@@ -134,7 +165,11 @@ theorem chkC07_ok (tb : Tabs) (m : Mon) (s : State) (op : Op) (hl : Link m s) (h
       (List.range ((recOf tb.cfg s op).before.text t).cells.length).all fun i =>
         let c := ((recOf tb.cfg s op).before.text t).cells.getD i blank
         let c' := ((recOf tb.cfg s op).after.text t).cells.getD i blank
-        c'.lvl ≤ c.lvl) = true := by
+        c'.lvl ≤ c.lvl &&
+        (c'.ch == c.ch ||
+          (match (recOf tb.cfg s op).op.group? with
+           | some g => (addressed g).any (fun a => a.1 == t && a.2.1 == i && decide (recvLevel g.eb a.2.2.2 ≤ c.lvl))
+           | none => false))) = true := by
     rw [all_range4]
     intro t ht
     rw [hop, hbefore]
@@ -148,7 +183,8 @@ theorem chkC07_ok (tb : Tabs) (m : Mon) (s : State) (op : Op) (hl : Link m s) (h
         rw [cells_all_range]; intro i _
         rw [hg] at key
         simp only [key t ht, hbefore]
-        exact decide_eq_true (Nat.le_refl _)
+        rw [Bool.and_eq_true]
+        exact ⟨decide_eq_true (Nat.le_refl _), by simp⟩
       | some g =>
         simp only []
         cases hsd : (switchDiscard m (Obs.ofState s) g && decide (t = 1 + g.b / 16 % 2)) with
@@ -160,7 +196,23 @@ theorem chkC07_ok (tb : Tabs) (m : Mon) (s : State) (op : Op) (hl : Link m s) (h
           simp only [key t ht]
           rw [expectedText_eq, hsd]
           simp only [Bool.false_eq_true, if_false]
-          exact decide_eq_true (expCells_lvl_le _ _ _ _ _ _ hprog i hilt)
+          rw [Bool.and_eq_true]
+          refine ⟨decide_eq_true (expCells_lvl_le _ _ _ _ _ _ hprog i hilt), ?_⟩
+          rw [Bool.or_eq_true]
+          rcases expCells_ch_or tb.cfg (Obs.ofState s).set (textIdOf t) g.eb ((Obs.ofState s).text t).cells
+            (if rtNoisy m g then [] else (addressed g).filter (fun a => a.1 = t)) hprog i hilt with h | ⟨a, ha, hai, hlv⟩
+          · left; rw [h]; exact beq_self_eq_true _
+          · right
+            have ha' : a ∈ (addressed g).filter (fun a => a.1 = t) := by
+              split at ha
+              · cases ha
+              · exact ha
+            rw [List.mem_filter] at ha'
+            have hat : a.1 = t := by simpa using ha'.2
+            rw [List.any_eq_true]
+            refine ⟨a, ha'.1, ?_⟩
+            simp only [Bool.and_eq_true, beq_iff_eq, decide_eq_true_eq]
+            exact ⟨⟨hat, hai⟩, hlv⟩
   unfold chkC07
   cases op <;> first | exact absurd rfl hi | exact absurd rfl hc | exact main
 
